@@ -42,12 +42,15 @@ FORMATS = ["delimited", "fixed", "excel", "ods"]
 BLANKS = [" ", "   ", "\t ", "  "]
 
 
-def build_field(fmt, ftype, empty, length, allowed):
+def build_field(fmt, ftype, empty, length, allowed, late=False):
+    """late: the 'Allowed characters' row stands behind the field row (data format rows may stand anywhere after Format)"""
     rule = TYPES[ftype][0]
     rows = [["D", "Format", fmt]]
-    if allowed is not None:
+    if allowed is not None and not late:
         rows.append(["D", "Allowed characters", V.items_text(allowed)])
     rows.append(["F", "f", "", "X" if empty else "", V.items_text(length), ftype, rule])
+    if allowed is not None and late:
+        rows.append(["D", "Allowed characters", V.items_text(allowed)])
     cid = interface.Cid()
     cid.read("<c03>", rows)
     return cid.field_formats[0]
@@ -82,7 +85,8 @@ def observe(field, cell):
 def make_case(inp):
     fmt, ftype, empty, length, allowed, cell = inp
     try:
-        field = build_field(fmt, ftype, empty, length, allowed)
+        import zlib
+        field = build_field(fmt, ftype, empty, length, allowed, late=bool(zlib.crc32(repr(inp).encode("utf-8")) & 1))
     except errors.InterfaceError as e:
         obs = {"declaration_refused": str(e)[:120]}
         return {"coq": P(P("false", "None", "true", "None", "None", "[]"), P("true", "None")), "obs": obs, "nontrivial": False, "tags": ["declaration-refused"]}
